@@ -22,7 +22,8 @@ def check(ctx, fn, rule):
                     for nrecs in (0, 2):
                         if nrecs and not any(k == "r" for k, _ in vs):
                             continue
-                        env = {"$dyn": True, "ncp": 1, "old_ncp": 2, "old_ncp->vars.ndefined": 0, "old_ncp->numrecs": nrecs,
+                        env = {"$dyn": True, "ncp": 1, "old_ncp": 2, "old_ncp->vars.ndefined": 0, "old_ncp->numrecs": nrecs, "old_ncp->recsize": 32, "old_ncp->vars.num_rec_vars": 0,
+                               "old_ncp->nprocs": nprocs, "old_ncp->rank": rank,
                                "ncp->vars.ndefined": nv, "ncp->vars.num_rec_vars": sum(1 for k, _ in vs if k == "r"),
                                "ncp->nprocs": nprocs, "ncp->rank": rank, "ncp->recsize": 64, "ncp->collective_fh": 5, "ncp->comm": 6}
                         for i, (k, ln) in enumerate(vs):
